@@ -117,6 +117,7 @@ type world struct {
 	b        *pubsub.Broker[string]
 	depth    func() int
 	mu       sync.Mutex
+	rmu      sync.Mutex // serialises readOn / readOff (the recorder calls them from several goroutines)
 	subs     map[string]*subscriber
 	pubs     map[string]*publisher
 	cancels  map[int]context.CancelFunc
@@ -255,6 +256,8 @@ func (w *world) sub(name string) *subscriber {
 }
 
 func (w *world) readOn(s *subscriber) {
+	w.rmu.Lock()
+	defer w.rmu.Unlock()
 	if s.reading {
 		return
 	}
@@ -275,6 +278,8 @@ func (w *world) readOn(s *subscriber) {
 }
 
 func (w *world) readOff(s *subscriber) {
+	w.rmu.Lock()
+	defer w.rmu.Unlock()
 	if !s.reading {
 		return
 	}
@@ -379,11 +384,7 @@ func (w *world) teardown() {
 	}
 	w.mu.Unlock()
 	for _, s := range subs {
-		if s.reading {
-			close(s.pause)
-			<-s.stopped
-			s.reading = false
-		}
+		w.readOff(s)
 	}
 	for _, p := range w.pubs {
 		close(p.work)
